@@ -1,10 +1,11 @@
-\* 2 exchange ids, 2 handlers, 4 packets of any (id, initiator, reliable), every handler policy; safety and liveness
+\* 2 sessions x 2 exchange ids, 2 handlers, 3 packets of any (session, id, initiator, reliable), every handler policy; safety and liveness
 SPECIFICATION Spec
 CONSTANTS
+  Sess = {1, 2}
   ExIds = {1, 2}
   Handlers = {1, 2}
-  MaxPkts = 4
-  Policies = {"reply", "drop", "hold"}
+  MaxPkts = 3
+  Policies = {"reply", "hold", "relDrop"}
 VIEW view
 INVARIANTS RightExchangeOnly OpensOnlyIfAllowed
 PROPERTIES SlotEventuallyFree EventuallyClean
